@@ -412,7 +412,8 @@ def r7(ctx, F, rule, sfx):
             ok = shs[0] == 'pair' and shs[1][0] == 'pos' and shs[2][0] == 'elem' and a1 is not None and a1[0] == shs[2] and a2 is not None and a2[0][0] == 'pos'
     ctx.check(rule, 'each-list-sorted-for-its-own-plane' + sfx, ok, '%d sorting closure(s), %d sorting loop(s)' % (len(runs), len(sloop)), 'lists.iter_mut().enumerate().for_each(|(i, l)| self.sort_face_vertices(l, i))', w, key_extra='sort')
     # face records
-    fruns = [r for r in ip.closure_runs if r['adaptor'] == 'filter_map' and r['body'] is wfb]
+    # the closure that creates the face records (in with_faces itself or in a helper it calls)
+    fruns = [r for r in ip.closure_runs if r['adaptor'] == 'filter_map' and (r['body'] is wfb or 'ConvexCellFace' in (F.body(r['closure']).get('ret') or F.body(r['closure'])['locals'][0]['ty']))]
     if len(fruns) != 1:
         raise AnalysisIncomplete('with_faces: %d face-creating closures' % len(fruns))
     fr = fruns[0]
@@ -443,7 +444,7 @@ def r7(ctx, F, rule, sfx):
     ctx.check(rule, 'face-record-fields' + sfx, oks, repr(some[1])[:160] if some else 'no Some arm', 'clipping_plane = slot, vertex_count = len(list), vertex_offset = running offset', where(cl), key_extra='facefields')
     ctx.check(rule, 'offset-recurrence' + sfx, okoff, 'offset after one item: %r' % (after,), 'offset + len(list) (unchanged for an empty list)', where(cl), key_extra='offset')
     # initial offset 0: the captured variable's value at closure creation
-    capt = [a for e in ip.events if e.body is wfb and e.callee and e.callee.endswith('Iterator::filter_map') for a in e.fargs[1:]]
+    capt = [a for e in ip.events if e.callee and e.callee.endswith('Iterator::filter_map') and 'closure:' + fr['closure'] in [getattr(I.frozen(a_), 'adt', None) for a_ in e.fargs[1:]] for a in e.fargs[1:]]
     ok0 = bool(capt) and '{0: &0}' in repr(capt[0]).replace(' ', '').replace('{0:&0}', '{0: &0}')
     ctx.check(rule, 'offset-starts-at-zero' + sfx, ok0, repr(capt[0])[-40:] if capt else 'no closure', 'let mut offset = 0', w, key_extra='offset0')
     ok_shape = shf[0] == 'pair' and shf[1][0] == 'pos' and shf[2][0] == 'elem'
